@@ -376,6 +376,11 @@ func genPauseMatrix(g *Gen, n int) {
 				// otherwise valid inputs for the eight flows
 				g.tx("SendMessage", from, fmt.Sprintf("dest=1 recipient=%x body=%x", g.r.Bytes(32), g.r.Bytes(10)), "")
 				f.harvest(from, false)
+				if tm := f.messengers[1]; tm != nil {
+					// a plain message to the very address the remote token messenger has: still a plain message
+					g.tx("SendMessage", from, fmt.Sprintf("dest=1 recipient=%x body=%x", tm, g.r.Bytes(10)), "")
+					g.tx("SendMessageWithCaller", from, fmt.Sprintf("dest=1 recipient=%x body=%x caller=%x", tm, g.r.Bytes(10), pad32(g.r.Bytes(20))), "")
+				}
 				g.tx("SendMessageWithCaller", from, fmt.Sprintf("dest=1 recipient=%x body=%x caller=%x", g.r.Bytes(32), g.r.Bytes(10), pad32(g.r.Bytes(20))), "")
 				g.tx("DepositForBurn", from, fmt.Sprintf("amount=5 dest=0 mint_recipient=%x burn_token=%x", g.r.Bytes(32), "uusdc"), "")
 				f.harvest(from, true)
